@@ -380,8 +380,70 @@ def st_case(draw):
     return {"program": prog, "ops": keep + [ops[-1]], "truth": truth, "pairs": pairs}
 
 
+def nested_family(ctx):
+    """Nested faulted calls: a condition (or a constructor body) of a checked callable calls another checked function
+    whose body raises, and afterwards re-enters the outer callable / uses the outer object. The suspension state after
+    the inner call must be what it was before it; oracle = the reference run R of C10 with the same raising body."""
+    from vf.props import c10
+
+    def fn(name, decos, body):
+        return {"name": name, "kind": "function", "async": False, "params": ["x", "y"], "defaults": {"y": "None"},
+                "decos": decos, "body": body}
+
+    for kind in ("Exception", "ProgError", "KeyError"):
+        for is_async in (False, True):
+            for role in ("require", "ensure"):
+                f0 = fn("f0", [{"t": role, "cid": 1, "args": ["x"], "lam": False, "err": {"form": "default"}}], {"ret": "obj"})
+                f1 = fn("f1", [{"t": "require", "cid": 2, "args": [], "lam": False, "err": {"form": "default"}}], {"raise": kind})
+                f0["async"] = f1["async"] = is_async
+                inv = {"cid": 3, "on": "CALL", "lam": False, "selfarg": True, "err": {"form": "default"}}
+                m = {"name": "m", "kind": "method", "async": is_async, "params": ["x", "y"], "defaults": {"y": "None"},
+                     "decos": [], "body": {"ret": "obj"}}
+                init = {"name": "__init__", "kind": "init", "async": False, "params": ["x", "y"],
+                        "defaults": {"x": "None", "y": "None"}, "decos": [], "body": {"ret": "None"}, "super": "absent"}
+                k0 = {"name": "K0", "bases": [], "root": "DBC", "shape": "plain", "invs": [inv], "members": [m, init]}
+                prog = {"funcs": [f0, f1], "classes": [k0]}
+                call_f0 = {"op": "callf", "f": "f0", "args": {"x": "a:s"}}
+                call_f1 = {"op": "callf", "f": "f1", "args": {"x": "a:s"}}
+                call_m = {"op": "call", "k": 0, "m": "m", "args": {"x": "a:s"}}
+                scenarios = {
+                    "reenter-after-inner-fault": ({("cond", 1): [call_f0, call_f1, call_f0]}, [call_f0, call_f0]),
+                    "method-after-inner-fault-in-invariant": ({("cond", 3): [call_f1, call_m]},
+                                                              [{"op": "new", "cls": 0, "k": 0, "args": {}}, call_m, call_m]),
+                    "method-body-calls-faulting-function": ({("body", "K0.m"): [call_f1, call_m]},
+                                                            [{"op": "new", "cls": 0, "k": 0, "args": {}}, call_m, call_f0]),
+                }
+                for sname, (scripts, ops) in scenarios.items():
+                    if is_async and sname != "reenter-after-inner-fault" and False:
+                        continue
+                    for code in ("T", "F"):
+                        truth = {1: [code], 2: ["T"], 3: ["T"]}
+                        case = {"program": prog, "ops": ops, "scripts": [[list(k), v] for k, v in scripts.items()], "fuel": 3,
+                                "truth": truth, "nested": sname}
+                        res = c10.run_case(ctx, case, truth)
+                        if res is None:
+                            continue
+                        before = set(ctx.failures)
+                        c10.judge_case(ctx, case, truth, res)
+                        for b in list(ctx.failures):
+                            if b not in before:
+                                f = ctx.failures.pop(b)
+                                nb = "nested|%s|%s|%s" % (sname, kind, b.split("|")[0])
+                                f.bucket = nb
+                                ctx.failures[nb] = f
+                                ctx.failure_counts[nb] = ctx.failure_counts.pop(b, 1)
+                        ctx.count("nested:" + sname)
+                        ctx.case(["nested", sname, kind, is_async, role, code], True, sample={"nested": sname, "inner body raises": kind,
+                                                                                            "async": is_async})
+
+
 def run(ctx, tier, seed, shard, nshards):
+    import sys
+
+    sys.setrecursionlimit(60000)
     n = N_QUICK if tier == "quick" else N_THOROUGH
+    if shard == 0:
+        nested_family(ctx)
 
     @given(st_case())
     def test(case):
@@ -393,6 +455,18 @@ def run(ctx, tier, seed, shard, nshards):
 
 def replay(ctx, case):
     import warnings
+
+    if case.get("nested"):
+        from vf.props import c10
+        import sys
+
+        sys.setrecursionlimit(60000)
+        truth = {int(k): v for k, v in case["truth"].items()}
+        res = c10.run_case(ctx, case, truth)
+        if res is not None:
+            c10.judge_case(ctx, case, truth, res)
+        ctx.evaluations += 1
+        return
 
     warnings.simplefilter("ignore", RuntimeWarning)
     case = dict(case)
